@@ -113,7 +113,52 @@ inline int tcpAccept(int lfd, int timeoutMs)
   return fd;
 }
 
-/// blocking connect to 127.0.0.1:port (loopback connects complete at once or fail at once)
+/// blocking connect to 127.0.0.1:port (loopback connects complete at once or fail at once).
+/// If `localPort` is given the socket is bound to 127.0.0.1:<ephemeral> first and the port is
+/// reported through *localPort BEFORE connecting (onBound is called with it), so that the other
+/// side can recognise this connection by its source port.
+template <class OnBound>
+inline int tcpConnectFrom(std::uint16_t port, int rcvbuf, int sndbuf, OnBound onBound)
+{
+  int fd = ::socket(AF_INET, SOCK_STREAM | SOCK_CLOEXEC, 0);
+  if (fd < 0) return -1;
+  setBufs(fd, rcvbuf, sndbuf);
+  {
+    sockaddr_in la = toSockaddr(Addr{kLoopback, 0});
+    if (::bind(fd, reinterpret_cast<sockaddr *>(&la), sizeof la) != 0)
+    {
+      ::close(fd);
+      return -1;
+    }
+    onBound(localAddr(fd).port);
+  }
+  int one = 1;
+  ::setsockopt(fd, IPPROTO_TCP, TCP_NODELAY, &one, sizeof one);
+  timeval tv{10, 0};
+  ::setsockopt(fd, SOL_SOCKET, SO_SNDTIMEO, &tv, sizeof tv); // bounds a blocking connect()
+  sockaddr_in sa = toSockaddr(Addr{kLoopback, port});
+  int r;
+  do r = ::connect(fd, reinterpret_cast<sockaddr *>(&sa), sizeof sa);
+  while (r < 0 && errno == EINTR);
+  if (r != 0)
+  {
+    ::close(fd);
+    return -1;
+  }
+  timeval z{0, 0};
+  ::setsockopt(fd, SOL_SOCKET, SO_SNDTIMEO, &z, sizeof z);
+  return fd;
+}
+
+/// remote port of a connected socket (0 on error)
+inline std::uint16_t remotePort(int fd)
+{
+  sockaddr_in sa{};
+  socklen_t sl = sizeof sa;
+  if (::getpeername(fd, reinterpret_cast<sockaddr *>(&sa), &sl) != 0) return 0;
+  return ntohs(sa.sin_port);
+}
+
 inline int tcpConnect(std::uint16_t port, int rcvbuf = 0, int sndbuf = 0)
 {
   int fd = ::socket(AF_INET, SOCK_STREAM | SOCK_CLOEXEC, 0);
@@ -286,6 +331,7 @@ struct TlsPeer
   SSL *ssl = nullptr;
   int fd = -1;
   std::string err;
+  int lastWant = 0;               // SSL_ERROR_WANT_READ / WANT_WRITE the handshake was waiting for when it timed out
   int lastSslError = 0;           // SSL_get_error() of the failed handshake step
   unsigned long lastErrCode = 0;  // ERR_get_error() of the failed handshake step
   ~TlsPeer() { destroy(); }
@@ -354,6 +400,7 @@ struct TlsPeer
       if (left <= 0 || waitFor(e, left) <= 0)
       {
         err = "handshake: timeout";
+        lastWant = e;
         return false;
       }
     }
